@@ -47,7 +47,7 @@ let render sc ob =
 let parse_ret tok =
   (* r<0|1>@<q> *)
   if String.length tok > 3 && tok.[0] = 'r' && tok.[2] = '@' then
-    Some (tok.[1] = '1', Z.of_string (String.sub tok 3 (String.length tok - 3)))
+    Some (tok.[1] = '1', ZA.of_string (String.sub tok 3 (String.length tok - 3)))
   else None
 
 let eval inp obs =
@@ -67,25 +67,25 @@ let eval inp obs =
     let blocked = ref false in
     (* instants known without the model: scripted calls and deadlines *)
     let instants = List.concat (List.map (fun (t, op) -> match op with
-      | SAcq (_, _, timeout) -> [zz_of_z t; Z.add (zz_of_z t) (zz_of_z timeout)] | _ -> [zz_of_z t]) ops) in
+      | SAcq (_, _, timeout) -> [zz_of_z t; ZA.add (zz_of_z t) (zz_of_z timeout)] | _ -> [zz_of_z t]) ops) in
     let snap q = (* the instant tau with q in [tau, tau+1], else q itself *)
-      match List.filter (fun tau -> Z.equal q tau || Z.equal q (Z.succ tau)) instants with
+      match List.filter (fun tau -> ZA.equal q tau || ZA.equal q (ZA.succ tau)) instants with
       | tau :: _ -> tau | [] -> q in
     let model_toks = List.map2 (fun m ((t, _), itok) -> match m with
       | `Tok s -> s
       | `Ret (ok, tau) ->
-        if not (Z.equal tau (zz_of_z t)) then blocked := true;
+        if not (ZA.equal tau (zz_of_z t)) then blocked := true;
         (match parse_ret itok with
          | Some (iok, q) when iok = ok ->
-           let d = Z.to_int (Z.sub q tau) in
+           let d = ZA.to_int (ZA.sub q tau) in
            if d = 0 || d = 1 then itok
-           else begin (if d >= 2 && d <= 5 then indet := true); Printf.sprintf "r%s@%s" (tok_of_bool ok) (Z.to_string tau) end
-         | _ -> Printf.sprintf "r%s@%s" (tok_of_bool ok) (Z.to_string tau))) mr pairs in
+           else begin (if d >= 2 && d <= 5 then indet := true); Printf.sprintf "r%s@%s" (tok_of_bool ok) (ZA.to_string tau) end
+         | _ -> Printf.sprintf "r%s@%s" (tok_of_bool ok) (ZA.to_string tau))) mr pairs in
     (* digest of the implementation's observation *)
     let rets = List.concat (List.map2 (fun m ((_, op), itok) -> match op, parse_ret itok with
       | SAcq (id, _, _), Some (ok, q) ->
         let tau = (match m with
-          | `Ret (mok, mt) when mok = ok && (Z.equal q mt || Z.equal q (Z.succ mt)) -> mt
+          | `Ret (mok, mt) when mok = ok && (ZA.equal q mt || ZA.equal q (ZA.succ mt)) -> mt
           | _ -> snap q) in
         [(id, (ok, z_of_zz tau))]
       | _ -> []) mr pairs) in
